@@ -567,46 +567,40 @@ def stream_solved(c, N):
             opts["fix_minimized_values"] = False
         desc = dict(variant=variant, keep=keep, solver="highs" if highs else "ipopt", n=n, inst=inst, opts=opts,
                     goals=[s.describe() for s in specs])
-        pr = K[variant](specs=specs, gp_opts=opts, use_highs=highs, **inst)
-        r = S.run_quiet(pr.optimize)
-        c.programs += 1
-        if r[0] == "raise":
-            c.hit("solved/exception")
-            c.disagree("well-formed goal set: optimize() raised", desc, "ok", classify(r[1]))
-            continue
-        success = bool(r[1])
-        c.hit("solved/success" if success else "solved/solver-failure")
-        c.hit("solved/" + variant + ("-keep" if keep and variant == "GP" else ""))
-        c.count(("solved", variant, keep, highs, len(prios), success, inst["pvals"].__len__(),
-                 tuple(sorted((s.size, s.point is None, s.tmin[0], s.tmax[0], s.crit) for s in live))))
-        c.sample({"stream": "solved", **desc, "success": success, "completed": [p for p, *_ in pr.snaps]}, limit=6)
-        done = [p for p, *_ in pr.snaps]
-        if success and done != prios:
-            c.fail("optimize() reported success without completing every priority", desc, dict(done=done, prios=prios))
-        E = len(inst["pvals"])
-        for k, (p, res, _tp, _obj, _xo) in enumerate(pr.snaps):
-            # the priorities whose violation variables are part of this solution
-            visible = range(0, k + 1) if keep else [k]
-            for i in visible:
-                gp = [s for s in live if int(s.prio) == prios[i]]
-                for kind, gl in (("point", [s for s in gp if s.point is not None]),
-                                 ("path", [s for s in gp if s.point is None])):
-                    for j, s in enumerate(gl):
-                        if not s.is_target or s.crit:
-                            continue
-                        name = ("path_eps_%d_%d" if kind == "path" else "eps_%d_%d") % (i, j)
-                        for m in range(E):
-                            if name not in res[m]:
-                                c.fail("violation variable %s missing from the results" % name, desc)
-                                continue
-                            eps = eps_array(res[m], name, s.size, n if kind == "path" else 1)
-                            check_envelope(c, desc, s, res[m], eps, "(priority %d seen at priority %d)" % (prios[i], p))
-            # multi-pass without keep_soft: the envelope of every EARLIER goal, for the violation it
-            # reported at its own priority, also holds in this later solution (retained hard
-            # constraint; goal relaxation and constraint_relaxation are the configured slack)
-            if not keep:
-                for i in range(k):
-                    res_i = pr.snaps[i][1]
+        # history dimension: a share of the problems has a parent whose constant_inputs() returns one
+        # cached dictionary per member (as IOMixin's @cached does), and is optimised a SECOND time on
+        # the same object after every target moved
+        cached = rng.random() < 0.4
+        rerun = cached or rng.random() < 0.1
+        pr = K[variant](specs=specs, gp_opts=opts, use_highs=highs, cache_inputs=cached, **inst)
+        runs = [specs] + ([S.shift_targets(specs, rng.choice([-0.25, 0.25]))] if rerun else [])
+        for run_no, specs in enumerate(runs):
+            if run_no:
+                pr.set_specs(specs)
+                prios, live = priorities_of(specs)
+                desc = dict(desc, second_optimize_call=True, cached_constant_inputs=cached,
+                            goals=[s.describe() for s in specs])
+                c.hit("solved/second-optimize-call" + ("-cached-inputs" if cached else ""))
+            r = S.run_quiet(pr.optimize)
+            c.programs += 1
+            if r[0] == "raise":
+                c.hit("solved/exception")
+                c.disagree("well-formed goal set: optimize() raised", desc, "ok", classify(r[1]))
+                break
+            success = bool(r[1])
+            c.hit("solved/success" if success else "solved/solver-failure")
+            c.hit("solved/" + variant + ("-keep" if keep and variant == "GP" else ""))
+            c.count(("solved", variant, keep, highs, len(prios), success, inst["pvals"].__len__(),
+                     tuple(sorted((s.size, s.point is None, s.tmin[0], s.tmax[0], s.crit) for s in live))))
+            c.sample({"stream": "solved", **desc, "success": success, "completed": [p for p, *_ in pr.snaps]}, limit=6)
+            done = [p for p, *_ in pr.snaps]
+            if success and done != prios:
+                c.fail("optimize() reported success without completing every priority", desc, dict(done=done, prios=prios))
+            E = len(inst["pvals"])
+            for k, (p, res, _tp, _obj, _xo) in enumerate(pr.snaps):
+                # the priorities whose violation variables are part of this solution
+                visible = range(0, k + 1) if keep else [k]
+                for i in visible:
                     gp = [s for s in live if int(s.prio) == prios[i]]
                     for kind, gl in (("point", [s for s in gp if s.point is not None]),
                                      ("path", [s for s in gp if s.point is None])):
@@ -615,24 +609,43 @@ def stream_solved(c, N):
                                 continue
                             name = ("path_eps_%d_%d" if kind == "path" else "eps_%d_%d") % (i, j)
                             for m in range(E):
-                                if name in res_i[m]:
-                                    eps = eps_array(res_i[m], name, s.size, n if kind == "path" else 1)
-                                    check_envelope(c, desc, s, res[m], eps,
-                                                   "(violation reported at priority %d, solution of priority %d)" % (prios[i], p),
-                                                   slack=s.relax + cr * s.nom_at(0))
-                                    c.hit("envelope/earlier-goal-on-later-solution")
-            # critical goals: from their priority on
-            for s in live:
-                if s.crit and int(s.prio) <= p:
-                    for m in range(E):
-                        check_critical(c, desc, s, res[m], "at priority %d" % p, slack=s.relax + cr * s.nom_at(0))
-                        c.hit("critical/checked")
-        if success:
-            for m in range(E):
-                fin = pr.extract_results(m)
+                                if name not in res[m]:
+                                    c.fail("violation variable %s missing from the results" % name, desc)
+                                    continue
+                                eps = eps_array(res[m], name, s.size, n if kind == "path" else 1)
+                                check_envelope(c, desc, s, res[m], eps, "(priority %d seen at priority %d)" % (prios[i], p))
+                # multi-pass without keep_soft: the envelope of every EARLIER goal, for the violation it
+                # reported at its own priority, also holds in this later solution (retained hard
+                # constraint; goal relaxation and constraint_relaxation are the configured slack)
+                if not keep:
+                    for i in range(k):
+                        res_i = pr.snaps[i][1]
+                        gp = [s for s in live if int(s.prio) == prios[i]]
+                        for kind, gl in (("point", [s for s in gp if s.point is not None]),
+                                         ("path", [s for s in gp if s.point is None])):
+                            for j, s in enumerate(gl):
+                                if not s.is_target or s.crit:
+                                    continue
+                                name = ("path_eps_%d_%d" if kind == "path" else "eps_%d_%d") % (i, j)
+                                for m in range(E):
+                                    if name in res_i[m]:
+                                        eps = eps_array(res_i[m], name, s.size, n if kind == "path" else 1)
+                                        check_envelope(c, desc, s, res[m], eps,
+                                                       "(violation reported at priority %d, solution of priority %d)" % (prios[i], p),
+                                                       slack=s.relax + cr * s.nom_at(0))
+                                        c.hit("envelope/earlier-goal-on-later-solution")
+                # critical goals: from their priority on
                 for s in live:
-                    if s.crit:
-                        check_critical(c, desc, s, fin, "in the final result", slack=s.relax + cr * s.nom_at(0))
+                    if s.crit and int(s.prio) <= p:
+                        for m in range(E):
+                            check_critical(c, desc, s, res[m], "at priority %d" % p, slack=s.relax + cr * s.nom_at(0))
+                            c.hit("critical/checked")
+            if success:
+                for m in range(E):
+                    fin = pr.extract_results(m)
+                    for s in live:
+                        if s.crit:
+                            check_critical(c, desc, s, fin, "in the final result", slack=s.relax + cr * s.nom_at(0))
 
 
 # ---------------------------------------------------------------------------------------------
